@@ -73,7 +73,8 @@ def box_info(box, page=None):
         opa=bool(st['opacity'] < 1), trf=bool(st['transform']),
         tm=('TNone' if not tmx else ('TRegular' if tmx.determinant else 'TSingular')),
         ovf=bool(st['overflow'] != 'visible'), clp=bool(st['clip']), git=bool(box.is_grid_item),
-        col=bool(kind == 'KTable' and table_style['border_collapse'] == 'collapse'),
+        col=bool(kind in ('KTable', 'KCell') and table_style['border_collapse'] == 'collapse'),
+        fit=bool(getattr(box, 'is_flex_item', False)),
         hid=bool(kind == 'KCell' and not (st['empty_cells'] == 'show' or not box.empty)),
         rcl=bool(box.is_for_root_element and page is not None and page.style['overflow'] != 'visible'))
 
@@ -140,12 +141,14 @@ def _synth_box(t, counter):
         'position': t['pos'], 'z_index': ('auto' if t['z'] is None else t['z']),
         'opacity': 0.5 if t['opa'] else 1, 'transform': ((('translate', (1, 1)),) if t['trf'] else ()),
         'overflow': 'hidden' if t['ovf'] else 'visible', 'float': 'left' if t['flt'] else 'none', 'clip': (),
-        'border_collapse': 'separate', 'empty_cells': 'show'}
+        'border_collapse': 'collapse' if t.get('col') else 'separate', 'empty_cells': 'show'}
     box.element_tag = 'x'
     box.element = None
     box.remove_decoration_sides = set()
     if t['git']:
         box.is_grid_item = True
+    if t.get('fit'):
+        box.is_flex_item = True
     box.empty = False
     box._c17_id = t['id']
     box.children = [_synth_box(k, counter) for k in t['kids']]
